@@ -374,6 +374,26 @@ def case_strategy(draw, max_ops=6):
                 node, shape, typ = saved      # empty / very large arrays are not generated
                 continue
             ops_used.append(op)
+            if shape and draw(st.integers(0, 3)) == 0:
+                # the same expression object is also read on the side (indexed, summed, transposed, reshaped) before it is
+                # used again: reads must be right and must not change what later operators see
+                probes = []
+                sh2 = _shadow(shape)
+                for _p in range(draw(st.integers(1, 2))):
+                    kind = draw(st.sampled_from(['idx', 'idx', 'sum', 'T', 'reshape', 'flatten']))
+                    if kind == 'idx':
+                        spec = _index_ir(draw, shape)
+                        sh2[_np_index(spec)]
+                        probes.append(['idx', ['hole'], spec])
+                    elif kind == 'sum':
+                        probes.append(['sum', ['hole'], draw(st.one_of(st.none(), st.integers(-len(shape), len(shape) - 1)))])
+                    elif kind == 'T':
+                        probes.append(['T', ['hole']])
+                    elif kind == 'flatten':
+                        probes.append(['flatten', ['hole']])
+                    else:
+                        probes.append(['reshape', ['hole'], draw(st.sampled_from(_factorisations(int(np.prod(shape)))))])
+                node = ['tee', node, probes]
         except (ValueError, IndexError):
             # NumPy rejected the shadow operation: skip this step (counts as not emitted)
             node, shape, typ = saved
@@ -549,7 +569,7 @@ def interp(node, objs, npvals, stats, func_style, vecs=None):
     """returns (rsome_object, numpy_value); every node is compared with NumPy as soon as it is built,
     so a failure is attributed to the innermost operator that went wrong."""
     e, nv = _interp(node, objs, npvals, stats, func_style, vecs)
-    if vecs is not None and node[0] not in ('var', 'const'):
+    if vecs is not None and vecs[0] is not None and node[0] not in ('var', 'const', 'hole', 'tee'):
         op = node[0]
         try:
             rv = eval_rsome(e, vecs[0], vecs[1])
@@ -580,6 +600,16 @@ def _interp(node, objs, npvals, stats, func_style, vecs=None):
 
     if op == 'var':
         return objs[node[1]], npvals[node[1]]
+    if op == 'hole':
+        return vecs[2]
+    if op == 'tee':
+        a, av = interp(node[1], objs, npvals, stats, func_style, vecs)
+        for pr in node[2]:
+            try:
+                interp(pr, objs, npvals, stats, func_style, (vecs[0], vecs[1], (a, av)) if vecs is not None else (None, None, (a, av)))
+            except Unsupported:
+                pass
+        return a, av
     if op == 'const':
         return _const_from_ir(node[1]), np.asarray(_dense(node[1]), dtype=float)
     if op in ('neg', 'flatten', 'T', 'trace'):
@@ -659,7 +689,7 @@ def count_ops(node, acc):
     if not isinstance(node, list) or not node:
         return
     op = node[0]
-    if op in ('var', 'const'):
+    if op in ('var', 'const', 'hole'):
         return
     acc.append(op)
     for ch in node[1:]:
@@ -685,6 +715,8 @@ def features(node, acc):
                 acc.add('stepped_slice')
             if s['t'] == 'int' and s['v'] < 0:
                 acc.add('neg_index')
+    if op == 'tee':
+        acc.add('reused_object')
     if op == 'sum' and node[2] is not None:
         acc.add('axis_sum')
     if op in ('concat', 'rstack', 'cstack', 'vec'):
@@ -705,7 +737,9 @@ class C05(Prop):
     level = 'exploration'
     rule = ('typed, shape-aware random expression trees (1-6 operators; leaves: dvar/rvar/ldr with random '
             'dependency masks/slices/constants incl. sparse, read-only, views, int/float32; ro and dro front '
-            'ends); each operator is emitted only if NumPy accepts it on shadow arrays. Oracle: NumPy on the '
+            'ends); each operator is emitted only if NumPy accepts it on shadow arrays; after one step in four the same '
+            'expression object is also read on the side (indexed, summed, transposed, reshaped, flattened - each read compared with '
+            'NumPy) before the next operator uses it. Oracle: NumPy on the '
             'shadow arrays vs. the RSOME object evaluated from linear/const (raffine/affine) at two integer '
             'assignments; shapes must be identical. Non-trivial = >=2 operators and at least one of: '
             'broadcasting (operand shapes differ), rank>=3, stepped/negative/fancy index, axis sum, stacking, '
